@@ -103,30 +103,37 @@ def isPow2Base (b : Nat) : Bool := b == 2 || b == 4 || b == 8 || b == 16 || b ==
 /-- sys.int_info.default_max_str_digits -/
 def maxStrDigits : Nat := 4300
 
-/-- mirrors CPython PyLong_FromString on a NUL-free byte string (`space` = the white-space test in force) -/
-def longFromString (space : Nat → Bool) (s : List Nat) (base0 : Nat) : Except PyExc Int :=
-  let s1 := s.dropWhile space
-  let (neg, s2) := match s1 with
-    | 43 :: r => (false, r)
-    | 45 :: r => (true, r)
-    | r => (false, r)
-  let isX (c : Nat) := c == 120 || c == 88
-  let isO (c : Nat) := c == 111 || c == 79
-  let isB (c : Nat) := c == 98 || c == 66
-  -- base 0: decide by prefix; a leading 0 without prefix is only valid for the value zero
-  let (base, errIfNonzero) :=
-    if base0 != 0 then (base0, false)
-    else match s2 with
-      | 48 :: c :: _ => if isX c then (16, false) else if isO c then (8, false) else if isB c then (2, false)
-                        else (10, true)
-      | 48 :: [] => (10, true)
-      | _ => (10, false)
-  let s3 := match s2 with
-    | 48 :: c :: r =>
-      if (base == 16 && isX c) || (base == 8 && isO c) || (base == 2 && isB c) then
-        (match r with | 95 :: r' => r' | _ => r)     -- one underscore allowed after the prefix
-      else s2
-    | _ => s2
+def isX (c : Nat) : Bool := c == 120 || c == 88
+def isO (c : Nat) : Bool := c == 111 || c == 79
+def isB (c : Nat) : Bool := c == 98 || c == 66
+
+/-- PyLong_FromString: optional sign -/
+def stripSign : List Nat → Bool × List Nat
+  | 43 :: r => (false, r)
+  | 45 :: r => (true, r)
+  | r => (false, r)
+
+/-- PyLong_FromString: base 0 is decided by the prefix; a leading 0 without prefix is only valid for the value zero
+    (second component = error_if_nonzero) -/
+def pickBase (base0 : Nat) (s2 : List Nat) : Nat × Bool :=
+  if base0 != 0 then (base0, false)
+  else match s2 with
+    | 48 :: c :: _ => if isX c then (16, false) else if isO c then (8, false) else if isB c then (2, false)
+                      else (10, true)
+    | 48 :: [] => (10, true)
+    | _ => (10, false)
+
+/-- PyLong_FromString: skip "0x" / "0o" / "0b" when it fits the base, and one underscore after it -/
+def stripPrefix (base : Nat) (s2 : List Nat) : List Nat :=
+  match s2 with
+  | 48 :: c :: r =>
+    if (base == 16 && isX c) || (base == 8 && isO c) || (base == 2 && isB c) then
+      (match r with | 95 :: r' => r' | _ => r)
+    else s2
+  | _ => s2
+
+/-- PyLong_FromString: the digits, the checks after them, the sign -/
+def finishScan (space : Nat → Bool) (neg : Bool) (base : Nat) (errIfNonzero : Bool) (s3 : List Nat) : Except PyExc Int :=
   match s3 with
   | 95 :: _ => .error .valueError                    -- may not start with an underscore
   | _ =>
@@ -138,6 +145,12 @@ def longFromString (space : Nat → Bool) (s : List Nat) (base0 : Nat) : Except 
       else if errIfNonzero && v != 0 then .error .valueError
       else if !(rest.dropWhile space).isEmpty then .error .valueError
       else .ok (if neg then -(v : Int) else (v : Int))
+
+/-- mirrors CPython PyLong_FromString on a NUL-free byte string (`space` = the white-space test in force) -/
+def longFromString (space : Nat → Bool) (s : List Nat) (base0 : Nat) : Except PyExc Int :=
+  let ns := stripSign (s.dropWhile space)
+  let be := pickBase base0 ns.2
+  finishScan space ns.1 be.1 be.2 (stripPrefix be.1 ns.2)
 
 /-- code points of the digit zero of every Unicode (15.0, CPython 3.12) decimal-digit block (category Nd);
     each block is 10 consecutive code points -/
